@@ -135,6 +135,16 @@ def handle (op : String) (args : List String) : Option String :=
         let w := writePack (deflateTab tab) noHash (tab.map (·.1))
         " ".intercalate (hex w.1 :: w.2.reverse.map fun e => s!"{hex e.name}:{e.offset}:{e.raw.length}")
       | none => "bad-arg"
+  | "c02.zat", [b, l, buf] => some <| match nat? b, nat? l, bytes? buf with
+      | some b, some l, some buf =>
+        (match zlibWalkAt Gen.Pack.zlibAtEndsOnUnused b l buf (l + 2) 0 [] with
+          | some (fed, e) => s!"ok {hex fed} {e}" | none => "err")
+      | _, _, _ => "bad-arg"
+  | "c02.zstream", l :: chunks => some <| match nat? l, chunks.mapM bytes? with
+      | some l, some chunks =>
+        (match zlibWalkStream l chunks 0 [] with
+          | some (fed, un) => s!"ok {hex fed} {hex un}" | none => "err")
+      | _, _ => "bad-arg"
   | "c02.trailer", hs :: chunks => some <| match nat? hs, chunks.mapM bytes? with
       | some hs, some chunks =>
         let s := feedAll hs chunks
